@@ -162,7 +162,18 @@ func GenC07(seed, index uint64) *Workload {
 		}
 		ntasks = 3 + r.Intn(3)
 	}
-	deep := !bigRun && !famRun && r.P(1, 60)
+	badRun := !bigRun && !famRun && r.P(1, 25)
+	if badRun {
+		// several clients fail to compile different invalid texts at once (error
+		// construction, error paths of the lexer and parser)
+		w.Exprs = nil
+		nexpr = 3 + r.Intn(4)
+		for i := 0; i < nexpr; i++ {
+			w.Exprs = append(w.Exprs, specOf(mutateText(r.Fork(500+uint64(i)), GenExpr(r.Fork(600+uint64(i)), Bias{Enum: 5, Lits: 30, Fail: 0, Let: 10, Unsafe: 50}))))
+		}
+		ntasks = 2 + r.Intn(3)
+	}
+	deep := !bigRun && !famRun && !badRun && r.P(1, 60)
 	if deep {
 		// several clients parse deeply nested texts at the same time
 		w.Exprs = nil
@@ -179,7 +190,7 @@ func GenC07(seed, index uint64) *Workload {
 		ntasks = 3 + r.Intn(3)
 	}
 	nexpr = addTextVariants(r, w, nexpr)
-	storm := r.P(1, 10) && !deep && !famRun
+	storm := r.P(1, 10) && !deep && !famRun && !badRun
 	if storm {
 		// compile storm: many clients compiling many different texts at once
 		ntasks = 4 + r.Intn(4)
@@ -213,6 +224,9 @@ func GenC07(seed, index uint64) *Workload {
 		if famRun {
 			nops = 3 + r.Intn(3)
 		}
+		if badRun {
+			nops = 2 + r.Intn(3)
+		}
 		var ops []Op
 		for k := 0; k < nops; k++ {
 			if storm && r.P(1, 6) {
@@ -238,6 +252,8 @@ func GenC07(seed, index uint64) *Workload {
 		w.Tasks = append(w.Tasks, ops)
 	}
 	switch {
+	case badRun:
+		w.Note = "invalid"
 	case famRun:
 		w.Note = "family"
 	case storm:
